@@ -248,5 +248,9 @@ def run(ctx):
     # ---------------------------------------------------------------- C17.ARGS
     from ..rules_common import check_call_arguments
     check_call_arguments(ctx, "C17.ARGS", "C17")
+    from ..rules_common import check_effect_tables
+    check_effect_tables(ctx, "C17")
+    from ..rules_common import check_presence_tests, ARG_SCOPE
+    check_presence_tests(ctx, "C17.PRESENCE", classes=ARG_SCOPE.get("C17", []))
 
 
